@@ -199,7 +199,11 @@ where
     let b = Builder { di, model, rst: if with_pin { Some(MockPin::new(&clock)) } else { None }, options };
     let mut delay = MockDelay(&clock);
     match b.init(&mut delay) {
-        Ok(_) => kani::assert(clock.ops.get() <= k, "C12: a failing operation was swallowed"),
+        Ok(d) => {
+            kani::assert(clock.ops.get() <= k, "C12: a failing operation was swallowed");
+            kani::assert(!(with_pin && d.di.n_swreset > 0), "C17: software reset sent although a reset pin is configured");
+            kani::assert(with_pin || d.di.n_swreset == 1, "C17: without a reset pin exactly one software reset");
+        }
         Err(InitError::ResetPin(_)) => {
             kani::assert(with_pin && k < 2, "C12: ResetPin error not caused by the reset pin");
             kani::assert(clock.ops.get() == k + 1, "C12: operations issued after the failing one");
